@@ -11,7 +11,8 @@ which a Rust function can carry state from one call to the next without it appea
   `Cell`/`RefCell`/`UnsafeCell`, `Mutex`/`RwLock`, atomics, and `unsafe` blocks,
 
 in every file of the two directories (not only in the items the models were written from), as pairs
-(file, source line with white space normalised).  Each property whose subject is a function has an obligation
+(file, the statement or item header the construct sits in, white space removed except between identifier
+characters — re-wrapping the source does not change the list).  Each property whose subject is a function has an obligation
 `Props/Cxx.hidden_state_reviewed` over the files IT is anchored in (`sitesIn files` = the reviewed list: the
 serialisation switch `CONFIG`, two integer constants declared `static`, the lazily built read-only tables), so a
 new memo / cache / counter breaks a named obligation of exactly the properties whose code it sits in."""
@@ -35,12 +36,22 @@ def gen_hidden_state(repo):
     for f in files:
         src = strip_comments(open(f, encoding="utf-8").read())
         src = re.sub(r'"(?:\\.|[^"\\])*"', '""', src)
-        for line in src.split("\n"):
-            if USE.match(line):
+        spans = []
+        for m in SITE.finditer(src):
+            # the statement / item header the construct sits in: back to the previous `;` `{` `}`, forward to the next
+            # `;` or `{` — so that re-wrapping the source (rustfmt) does not change the list
+            a = max(src.rfind(c, 0, m.start()) for c in ";{}") + 1
+            ends = [i for i in (src.find(";", m.end()), src.find("{", m.end())) if i >= 0]
+            b = min(ends) + 1 if ends else len(src)
+            if USE.match(src[a:b].lstrip("\n")) or USE.match(" ".join(src[a:b].split())):
                 continue            # an import alone carries no state; its use is listed
-            if SITE.search(line):
-                txt = " ".join(line.split()).replace("\\", "\\\\").replace('"', "'")
-                sites.append((os.path.relpath(f, base), txt))
+            if (a, b) not in spans:
+                spans.append((a, b))
+        for a, b in spans:
+            txt = " ".join(src[a:b].split())
+            txt = re.sub(r"\s*([^\w\s])\s*", r"\1", txt)     # white space counts only between identifier characters
+            txt = txt.replace("\\", "\\\\").replace('"', "'")
+            sites.append((os.path.relpath(f, base), txt))
     body = ",\n  ".join(f'("{a}", "{b}")' for a, b in sites)
     return (HEADER + "namespace Rs1090.Gen.HiddenState\n"
             f"/-- number of source files scanned (decode/**, data/**) -/\ndef filesScanned : Nat := {len(files)}\n"
